@@ -87,7 +87,11 @@ def run_one(mod, case):
             res = res.result()
     except Exception as exc:  # noqa: BLE001
         from . import env
+        from . import zoo as _zoo
 
+        if isinstance(exc, _zoo.NotConvergent):
+            return {"nontrivial": False, "families": {}, "violations": [], "inconclusive": [], "monitors": {"cases_skipped_no_convergent_coupling": 1},
+                    "info": {"skipped": str(exc)[:200]}, "wall_s": round(time.time() - t0, 3)}
         where, frame = classify_exception(exc)
         tbs = traceback.format_exc()
         if isinstance(exc, env.HarnessError):
